@@ -238,7 +238,7 @@ KNOWN = {}
 def plan(tier):
     if tier == "quick":
         return [{"part": "split", "shards": 16, "budget": {"n_examples": 150}}]
-    return [{"part": "split", "shards": 16, "budget": {"n_examples": 4000}}]
+    return [{"part": "split", "shards": 16, "budget": {"n_examples": 12000}}]
 
 
 def run_part(part, seed, shard, nshards, budget):
